@@ -122,6 +122,11 @@ def run(chk):
             cases.append({'config': carrier_yaml(), 'files': {'main.asm': 'start:\nld8 SYMA\n#if SYMA == 13\n.byte 1\n#else\n.byte 2, 3\n#endif\nafter:\n.2byte after\n'},
                           'defines': defs, 'pretty': fmt})
             tags.append(('command-line symbols', json.dumps(defs), fmt))
+    # long comments (wider than any terminal) and text beyond ASCII in comments and strings
+    longc = 'start:\nld8 1 ; ' + 'a comment that is much wider than a terminal of forty columns ' * 4 + '\n.cstr "caf\u00e9 \u00e0 la carte"  ; \u00fcber\nafter:\n.2byte after\n'
+    for fmt in FORMATS:
+        cases.append({'config': carrier_yaml(), 'files': {'main.asm': longc}, 'pretty': fmt})
+        tags.append(('long comment and non-ASCII text', 'main.asm', fmt))
     # repository programs (absolute paths: run in place, include dir = their directory)
     ncorp = 0
     for cfg, src, inc in corpus.corpus_programs():
@@ -145,6 +150,14 @@ def run(chk):
         cwd = tempfile.mkdtemp(prefix=f'vcwd{k}_', dir=runner.SCRATCH_ROOT)
         cwds.append(cwd)
         env_extra = {f'VERIF_JUNK_{j}': str(rng.random()) for j in range(k)}
+        # terminal width and locale of the process (the outputs are files: neither may matter)
+        if k % 3 == 1:
+            env_extra['COLUMNS'] = '40'
+        if k % 3 == 2:
+            env_extra['COLUMNS'] = '200'
+            env_extra['LINES'] = '10'
+        env_extra['LC_ALL'] = ['C.UTF-8', 'C', 'POSIX', 'C.UTF-8'][k % 4]
+        env_extra['LANG'] = env_extra['LC_ALL']
         if k % 2:
             env_extra['TMPDIR'] = cwd
             # decoys: the working directory is not a search directory, files lying there must not be picked up
@@ -174,7 +187,7 @@ def run(chk):
         chk.traces += len(outs)
         chk.nontriv(t)
         ref = outs[0][i]
-        if t[0] in ('same-type-operands', 'corpus') and ref['status'] != 'ok':
+        if t[0] in ('same-type-operands', 'corpus', 'long comment and non-ASCII text') and ref['status'] != 'ok':
             chk.machinery(f'{t[0]} case is meant to assemble but does not: {ref["msg"][:160]}')
         for k in range(1, len(outs)):
             o = outs[k][i]
